@@ -482,10 +482,10 @@ pub fn run(args: &Args) -> ! {
     exhaustive(&mut ctx, maxlen);
     builtin_illtyped(&mut ctx);
     ctx.bump_sample_cap(6);
-    let n = ctx.tier.pick(50_000, 400_000);
+    let n = ctx.tier.pick(200_000, 400_000);
     random_mem(&mut ctx, n);
     ctx.bump_sample_cap(6);
-    let n = ctx.tier.pick(2_000, 20_000);
+    let n = ctx.tier.pick(6_000, 20_000);
     random_sock(&mut ctx, n);
     ctx.exhaustive = Some(false);
     ctx.finish()
